@@ -92,6 +92,10 @@ type op =
   | Poison
   | Attr of int * int * bool * int                      (* engine, struct type, passed as pointer, which object template *)
   | Flood of int                                        (* another engine looks up that many distinct attribute names *)
+  | Alias of int * int * int                            (* engine, name, alias: RegisterTemplate(alias, Load(name)): the same template under a second name *)
+  | Handle of int * int                                 (* engine, name: the caller keeps the *Template that Load returns *)
+  | RenderAlias of int * int * (int * int) list         (* Render(alias) *)
+  | RenderHandle of int * int * (int * int) list        (* Template.Render on the kept handle of (engine, name) *)
 
 let junk_cell = { M.pcl_kind = n_of_int 77; pcl_payload = [ n_of_int 13 ]; pcl_children = [ nat_of_int 0; nat_of_int 1; nat_of_int 2 ] }
 let model_ops (o : op) : M.pool_op list =
@@ -103,6 +107,7 @@ let model_ops (o : op) : M.pool_op list =
   | Toggle e -> [ M.POToggleCache (nat_of_int e) ]
   | Gc -> [ M.POGC ]
   | Attr _ | Flood _ -> []                                (* attribute access on Go structs: outside the machine *)
+  | Alias _ | Handle _ | RenderAlias _ | RenderHandle _ -> []   (* second references to a held template: outside the machine, oracle only *)
   | Poison -> List.map (fun k -> M.POPoison (k, junk_cell)) [ M.pk_root; M.pk_text; M.pk_var; M.pk_block; M.pk_include; M.pk_call; M.pk_if; M.pk_macro ]
 
 let unmodelled = ref 0
@@ -153,7 +158,13 @@ let emit_history oc (r : rng) ~(stream : string) ~(engines : int) (store : ((int
       | Gc -> [ "op", JS "gc" ]
       | Poison -> [ "op", JS "poison" ]
       | Attr (e, ty, ptr, tpl) -> [ "op", JS "attr"; "e", JI e; "ty", JI ty; "ptr", JB ptr; "tpl", JI tpl ]
-      | Flood n -> [ "op", JS "flood"; "cnt", JI n ] in
+      | Flood n -> [ "op", JS "flood"; "cnt", JI n ]
+      | Alias (e, n, a) -> parse_since_render := true; [ "op", JS "alias"; "e", JI e; "n", JI n; "tpl", JI a ]
+      | Handle (e, n) -> [ "op", JS "handle"; "e", JI e; "n", JI n ]
+      | RenderAlias (e, a, vars) -> nt := true;
+          [ "op", JS "renderalias"; "e", JI e; "n", JI a; "vars", JL (List.map (fun (x, v) -> JL [ JI x; JI v ]) vars); "exp", JS "unmodelled:alias" ]
+      | RenderHandle (e, n, vars) -> nt := true;
+          [ "op", JS "renderhandle"; "e", JI e; "n", JI n; "vars", JL (List.map (fun (x, v) -> JL [ JI x; JI v ]) vars); "exp", JS "unmodelled:handle" ] in
     Ob j) ops in
   emit oc (Ob [ "stream", JS stream; "engines", JI engines; "nt", JB !nt; "len", JI (List.length ops);
                 "model_predicts_history_dependence", JB !mv_here;
@@ -233,9 +244,19 @@ let gen_history (r : rng) ~(maxlen : int) =
   let focus = ref 0 in
   (* a third of the histories also render Go structs (by value and through pointers) through attribute access *)
   let objs = rint r 3 = 0 and oty = rint r 4 and floods = ref 0 in
+  let second = rint r 4 = 0 in
   while List.length !ops < len do
     match wpick r [ 42, `Render; 9, `Rereg; 7, `Parse; 6, `Load; 5, `Toggle; 6, `Gc; 4, `Poison; (if engines = 2 then 10 else 0), `Other; 4, `BadReg;
-                    (if objs then 22 else 0), `Attr; (if objs && !floods < 1 then 3 else 0), `Flood ] with
+                    (if objs then 22 else 0), `Attr; (if objs && !floods < 1 then 3 else 0), `Flood; (if second then 14 else 0), `Second ] with
+    | `Second ->
+        (* a second reference to a held template: an alias, or a handle the caller keeps; later the name is registered
+           again and the old template must go on rendering as before *)
+        let n = wpick r [ 3, 0; 2, 2; 1, 3 ] in
+        (match rint r 4 with
+         | 0 -> push (Alias (0, n, 50 + n))
+         | 1 -> push (Handle (0, n))
+         | 2 -> push (RenderAlias (0, 50 + wpick r [ 3, 0; 2, 2; 1, 3 ], gen_vars r))
+         | _ -> push (RenderHandle (0, wpick r [ 3, 0; 2, 2; 1, 3 ], gen_vars r)))
     | `Render ->
         let n = if rint r 3 <> 0 then !focus else wpick r [ 4, 0; 2, 1; 2, 2; 1, 3; 1, 9; 1, 4 ] in
         focus := n; push (Render (0, n, gen_vars r))
@@ -293,6 +314,10 @@ let fixed (r : rng) =
        this and on another engine, with an attribute-cache roll-over in between *)
     (2, [], [ reg 0 0 a; Attr (0, 0, false, 0); Attr (0, 0, true, 0); Attr (1, 1, true, 0); Attr (0, 1, false, 2); Attr (1, 1, true, 1);
               Render (0, 0, []); Attr (0, 2, true, 0); Flood 1200; Attr (1, 2, false, 2); Attr (0, 2, true, 0); Attr (0, 2, true, 0) ]);
+    (* the same template under a second name and through a kept handle; then its first name is registered again,
+       other sources are parsed, and the old template must still render as it did *)
+    (1, [], [ reg 0 0 a; Alias (0, 0, 50); Handle (0, 0); RenderAlias (0, 50, []); reg 0 0 b; RenderAlias (0, 50, []); RenderHandle (0, 0, []); Render (0, 0, []);
+              Parse (0, base, print_src r base); reg 0 1 base; RenderAlias (0, 50, []); RenderHandle (0, 0, []); Gc; Poison; RenderAlias (0, 50, []); RenderHandle (0, 0, []) ]);
     (* a missing include fails the render; the template renders the same afterwards on a good and a bad name *)
     (1, [], [ reg 0 0 (s [ text 1; incl 9 false ]); reg 0 1 (s [ text 2; incl 9 true; text 3 ]); Render (0, 0, []); Render (0, 1, []);
               Render (0, 0, []); Render (0, 1, []) ]) ]
